@@ -277,7 +277,8 @@ PROPS = {
     ),
     'C08': dict(
         monitor=True,
-        streams=[conc_stream('isolation', 60, 1500), chain_stream(3000, 100000, _nt_bound)],
+        streams=[conc_stream('isolation', 60, 1500), chain_stream(3000, 100000, _nt_bound),
+                 dict(name='history', n_quick=400, n_thorough=12000, nontrivial=_nt_pair, compare=_pair_compare, wf_check=False, race=True)],
         rule='stream isolation: a fixed chain of pure providers (static injector, injector, wrapper calling inner() twice, fallible injector, then a Parallel '
              'wrapper calling inner() from two goroutines / a wrapper calling inner() three times / an injector, final) invoked by 2-11 goroutines x 20-170 '
              'invocations each in a shuffled order with distinct arguments, under the race detector with seeded Gosched/sleep perturbation at the yield hooks; '
@@ -292,11 +293,13 @@ PROPS = {
     ),
     'C09': dict(
         monitor=True,
-        streams=[conc_stream('memo', 120, 3000)],
+        streams=[conc_stream('memo', 120, 3000), chain_stream(2500, 80000, _nt_bound, name='femotif')],
         rule='stream memo: one Memoize\'d provider (per-invocation, per-invocation fallible, static keyed by init arguments, or with an interface-typed input fed '
              'nil / "" / 0 / a struct) shared by 1-3 chains, used by 2-8 goroutines x 3-14 uses each with keys drawn from 1-4 values, under the race detector with '
              'yield perturbation; observed: calls per key (must be 1 for every key used) and equality of the results seen for one key; the scenario is also run '
-             'through the extracted interleaving model on a round-robin schedule; non-trivial: the scenario ran to completion',
+             'through the extracted interleaving model on a round-robin schedule; non-trivial: the scenario ran to completion. stream femotif (chain format, compared '
+             'with the model): Memoize\'d injectors (fallible or not, also supplied through the Reflective interface) on an input that is hashable, unhashable ([]int, map) or '
+             'comparable but never acceptable as a cache key (unexported interface field), static (a literal) or per invocation (an invoke argument): which class they get and how often they are called',
         level_text='Theorem memo_once_per_key (interleaving semantics of the cacher — mutex held across lookup, call, store: for every key assignment, any number '
                    'of concurrent uses and every schedule the function is called at most once per key and every use that returned observed that call\'s result), '
                    'with its invariant Minv; Coq, no axioms. Key injectivity and call-through for unhashable inputs are covered by the stream only '
@@ -488,8 +491,8 @@ PROPS = {
                  dict(name='curry', n_quick=6000, n_thorough=300000, nontrivial=lambda c, o: o.startswith('CURRY ok'), compare=lambda c, o, m: o == m, wf_check=False),
                  dict(name='saveto', n_quick=3000, n_thorough=100000, nontrivial=lambda c, o: o.startswith('SAVETO ok'), compare=lambda c, o, m: o == m, wf_check=False),
                  dict(name='filler', n_quick=6000, n_thorough=300000, nontrivial=lambda c, o: o.startswith('FILL ok'), compare=lambda c, o, m: o == m, wf_check=False),
-                 chain_stream(3000, 100000, _nt_bound)],
-        rule=CHAIN_RULE + 'stream refltwin: a chain of plain functions paired with the same chain in which a random subset of injectors, wrappers and the final function '
+                 chain_stream(3000, 100000, _nt_bound), chain_stream(2000, 60000, _nt_bound, name='femotif')],
+        rule=CHAIN_RULE + 'stream femotif: annotated (Memoize/Cacheable/MustCache) injectors on hashable and unhashable inputs, a quarter of them supplied through the Reflective interface. stream refltwin: a chain of plain functions paired with the same chain in which a random subset of injectors, wrappers and the final function '
              'is supplied through MakeReflective / ReflectiveWrapper; monitor: the two observations (plan, wiring, results, call log) are identical. '
              'stream curry: original functions of 1-7 parameters over 3-5 types (repeats, a func-typed parameter now and then) and curried signatures keeping a '
              'random sub-multiset in random order, plus invalid variants (type curried twice, extra/missing parameter, nothing curried, first curried input a function); '
